@@ -156,6 +156,92 @@ def undo_rfc2047(v):
     return v
 
 
+def awkward_realm(realm):
+    """realms the tools paste unescaped between double quotes: the statement's "well-formed challenge" cannot hold
+    (digest) or the tool refuses the configuration outright (basic, for the double quote)"""
+    return '"' in realm or '\\' in realm
+
+
+# ----------------------------------------------------------------------------------------------
+# RFC 2047 (what Request.process_headers does to a header value containing "=?")
+# ----------------------------------------------------------------------------------------------
+def enc_word(text, charset, enc):
+    """one RFC 2047 encoded word for `text`"""
+    b = text.encode(charset)
+    if enc in 'bB':
+        payload = base64.b64encode(b).decode('ascii')
+    else:
+        payload = ''.join(chr(x) if (48 <= x <= 57 or 65 <= x <= 90 or 97 <= x <= 122) else '_' if x == 32
+                          else '=%02X' % x for x in b)
+    return '=?%s?%s?%s?=' % (charset, enc, payload)
+
+
+_ECRE = re.compile(r'=\?([^?]*?)\?([qQbB])\?(.*?)\?=')
+
+
+def decode_words(value):
+    """Independent, deliberately small RFC 2047 reader: every encoded word is replaced in place by its text, white
+    space between two adjacent encoded words is dropped.  Raises ValueError / LookupError when a word cannot be
+    decoded.  The generator only keeps headers on which this agrees with `decode_text_ref`."""
+    out, pos, prev_word = [], 0, False
+    for m in _ECRE.finditer(value):
+        gap = value[pos:m.start()]
+        if not (prev_word and gap.strip(' \t') == ''):
+            out.append(gap)
+        cs, enc, payload = m.group(1), m.group(2).lower(), m.group(3)
+        if enc == 'b':
+            payload += '==='[:(4 - len(payload) % 4) % 4]
+            try:
+                b = base64.b64decode(payload.encode('ascii'), validate=False)
+            except (binascii.Error, UnicodeEncodeError) as e:
+                raise ValueError(str(e))
+        else:
+            b = re.sub(r'=([0-9A-Fa-f]{2})', lambda mm: chr(int(mm.group(1), 16)), payload.replace('_', ' '))
+            b = b.encode('latin-1')
+        out.append(b.decode(cs))
+        pos, prev_word = m.end(), True
+    out.append(value[pos:])
+    return ''.join(out)
+
+
+def decode_text_ref(value):
+    """Value of the model's RFC 2047 decoder parameter: `email.header.decode_header` + charset decoding (the standard
+    library routine, applied here without any cherrypy code).  None = LookupError / ValueError / MessageError."""
+    import email.errors
+    try:
+        out = ''
+        for atom, cs in email.header.decode_header(value):
+            if cs is not None:
+                atom = atom.decode(cs)
+            elif isinstance(atom, bytes):
+                atom = atom.decode('latin-1')
+            out += atom
+        return out
+    except (LookupError, ValueError, email.errors.MessageError):
+        return None
+
+
+def process_header_ref(header):
+    """('none',) | ('ok', value the tool reads) | ('400',): strip(), then RFC 2047 decoding iff '=?' occurs"""
+    if header is None:
+        return ('none',)
+    v = header.strip()
+    if '=?' in v:
+        d = decode_text_ref(v)
+        return ('400',) if d is None else ('ok', d)
+    return ('ok', v)
+
+
+def rfc2047_agree(value):
+    """(ok, decoded or None): the two decoders agree on this value (both fail, or both give the same text)"""
+    ref = decode_text_ref(value)
+    try:
+        mine = decode_words(value)
+    except (ValueError, LookupError):
+        mine = None
+    return ref == mine, ref
+
+
 _PARAM = re.compile(r'([A-Za-z][A-Za-z0-9_-]*)="((?:[^"\\]|\\.)*)"')
 
 
@@ -271,6 +357,7 @@ PASSWORDS = ['secret', 'pw', 'p:w', ':start', 'end:', 'a"b', 'p\\q', 'caf\xe9', 
              'é', '\xe9', '\xc3\xa9', ' lead', 'trail ', 'x' * 40, 'Secret', 'p,w', 'p=w', 'Å', '\xc5', '0']
 REALMS = ['R', 'wonderland', 'My Realm', 'caf\xe9', 're:alm', 'r\U0001F600x', 'Ωmega', 'a,b=c', "it's", 'x' * 30, 'earth ',
           '\ufb01rm\xb2', 'cafe\u0301', '\xb5\u2167']
+AWKWARD_REALMS = ['a"b', 'x", stale="true', 'back\\slash', 'q\\"r', '"', 'tail\\']
 CHARSETS = ['utf-8', 'utf-8', 'UTF-8', 'utf8', 'iso-8859-1', 'ISO-8859-1', 'latin-1', 'ascii']
 KEYS = ['a565c27146791cfb', 'k', 'key:with:colons', 'cl\xe9', 'K' * 33, '\U0001F511']
 METHODS = ['GET', 'GET', 'POST', 'PUT', 'HEAD', 'DELETE']
@@ -316,6 +403,10 @@ def gen_cfg(rng, tool):
             seen.add(u)
             uniq.append([u, p])
     cfg = {'tool': tool, 'realm': rng.choice(REALMS), 'charset': rng.choice(CHARSETS), 'users': uniq}
+    if rng.random() < 0.06:
+        cfg['realm'] = rng.choice(AWKWARD_REALMS)
+    if rng.random() < 0.25:
+        cfg['debug'] = True           # must not change any decision: same model, same oracle
     if tool == 'digest':
         cfg['key'] = rng.choice(KEYS)
         cfg['store'] = rng.choice(['plain', 'plain', 'ha1', 'htdigest'])
@@ -355,9 +446,12 @@ QUOTED = ('username', 'realm', 'nonce', 'uri', 'response', 'cnonce', 'opaque')
 def serialise(items, style, rng):
     """items: list of (name, value).  RFC 2617 spelling: quoted-string for the QUOTED names, token otherwise."""
     parts = []
+    qq = style.get('q', q)
     for k, v in items:
-        if style.get('quote_all') or (k in QUOTED and not style.get('quote_none')) or not re.fullmatch(r'[!#-+\--~]+', v):
-            parts.append('%s=%s' % (k, q(v)))
+        if v.startswith('\x00RAW'):
+            parts.append('%s=%s' % (k, v[4:]))
+        elif style.get('quote_all') or (k in QUOTED and not style.get('quote_none')) or not re.fullmatch(r'[!#-+\--~]+', v):
+            parts.append('%s=%s' % (k, qq(v)))
         else:
             parts.append('%s=%s' % (k, v))
     sep = style.get('sep', ', ')
@@ -434,7 +528,8 @@ DIGEST_KINDS = [
     ('tamper_algorithm', 2), ('tamper_username', 3), ('tamper_realm_field', 2),
     ('drop_field', 6), ('dup_field', 2), ('extra_field', 2), ('empty_value', 4), ('bad_value', 2),
     ('scheme', 6), ('no_header', 1), ('whitespace', 3), ('quoting', 5), ('wire_other_charset', 3), ('exotic_case', 2),
-    ('int_nonce_ts', 1),
+    ('int_nonce_ts', 2),
+    ('method_param_override', 4), ('param_case', 2), ('quoted_pair', 3), ('rfc2047', 6),
 ]
 
 
@@ -496,7 +591,7 @@ def gen_digest_case(rng, cfg, world):
             kind = 'ok'
     elif kind == 'client_other_realm':
         realm_used = cfg['realm'] + rng.choice(['x', ' ', '2']) if rng.random() < 0.7 else 'other'
-    elif kind == 'method_mismatch':
+    elif kind in ('method_mismatch', 'method_param_override'):
         method_used = rng.choice([m for m in ['GET', 'POST', 'PUT', 'HEAD', 'DELETE', 'get'] if m != method])
     elif kind == 'body_mismatch':
         qop, method, body, body_used = 'auth-int', 'POST', 'entity body', 'other body'
@@ -509,6 +604,17 @@ def gen_digest_case(rng, cfg, world):
             pw_used = other_password(rng, cfg, user, pw)
     elif kind == 'nonce_future':
         age = -rng.choice([1, 100, 100000])
+    rfc_how = None
+    if kind == 'rfc2047':
+        # Request.process_headers runs the RFC 2047 decoder over every header value that contains "=?"
+        rfc_how = rng.choice(['whole', 'whole', 'params', 'two-words', 'field', 'field-literal', 'undecodable',
+                              'nonlatin', 'marker-only', 'embedded-word-uri', 'lower-scheme-word'])
+        if rng.random() < 0.3 and rfc_how not in ('marker-only',):
+            pw_used = other_password(rng, cfg, user, pw)
+        if rfc_how == 'marker-only':
+            uri = rng.choice(['/a=?b', '/?q==?', '/=?utf-8?q', '/x?=?', '/=?=?'])
+        elif rfc_how == 'embedded-word-uri':
+            uri = rng.choice(['/x?=?utf-8?q?abc?=', '/=?iso-8859-1?b?YWJj?=/y'])
     issue_at = now - age
     if issue_at < 0:
         issue_at, age = now, 0
@@ -532,7 +638,9 @@ def gen_digest_case(rng, cfg, world):
         # the server's own nonce format with a timestamp int() reads differently from how it is written
         # (the harness knows the key here: this exercises validate_nonce/is_nonce_stale on exotic but *forgeable
         # only with the key* nonces; the oracle treats them as not issued by the server)
-        ts = rng.choice(['+%d', ' %d', '%d ', '0%d', '%d_0', '١٢', '-%d', '%d.0', '1e3', ''])
+        ts = rng.choice(['+%d', ' %d', '%d ', '0%d', '%d_0', '١٢', '-%d', '%d.0', '1e3', '', '9' * 4301, '9' * 25,
+                         '%d_', '_%d', '１２３４５６７８９０１', '%d\xa0', '\u2003%d', '+-%d', '0x%d', '%d\x00', 'None',
+                         '٠%d', '-0', '%d__0'])
         ts = ts % int(issue_at) if '%d' in ts else ts
         nonce = ts + ':' + md5(u8('%s:%s:%s' % (ts, cfg['realm'], cfg['key'])))
         conforming, wellformed = False, None
@@ -568,6 +676,39 @@ def gen_digest_case(rng, cfg, world):
     text = None
     fields_known = True
     dup_alt = None
+    alt_fields = []           # further field sets a server may legitimately read out of the header
+    if kind == 'method_param_override':
+        # a non-RFC auth-param naming the method the response was computed for: the statement says the *request*
+        # method goes into A2, so this must be refused (401; an extra parameter is not a syntax error)
+        how = rng.choice(['token', 'quoted', 'first'])
+        kind += ':' + how
+        mp = ('method', method_used if how != 'quoted' else '\x00RAW' + q(method_used))
+        if how == 'first':
+            items.insert(0, mp)
+        else:
+            items.insert(rng.randrange(len(items) + 1), mp)
+        conforming = False
+    elif kind == 'param_case':
+        # auth-param names are case-insensitive in RFC 7235; the code looks them up in lower case only.  Either
+        # reading is fine for the statement: what matters is that nobody gets in without a verifying reading.
+        i = rng.randrange(len(items))
+        k0, v0 = items[i]
+        k1 = rng.choice([k0.upper(), k0.capitalize(), k0[:-1] + k0[-1].upper()])
+        items[i] = (k1, v0)
+        kind += ':' + k0
+        conforming, wellformed = False, None
+        alt_fields.append({k.lower(): v for k, v in items})
+        alt_fields.append({k: v for k, v in items if k != k1})
+        if k0 == 'qop':
+            sent_qop = None
+        if k0 == 'algorithm':
+            sent_alg = None
+    elif kind == 'quoted_pair':
+        # RFC 7230 quoted-pair: any character of a quoted-string may be written with a backslash in front
+        def q_more(v, rng=rng):
+            return '"' + ''.join(('\\' + c) if (c in '\\"' or rng.random() < 0.3) else c for c in v) + '"'
+        style['q'] = q_more
+        conforming = False
     if kind == 'tamper_response':
         r = response
         how = rng.choice(['flip', 'prefix31', 'prefix1', 'prefix8', 'extend', 'upper', 'space', 'other'])
@@ -624,7 +765,7 @@ def gen_digest_case(rng, cfg, world):
         if name == 'qop':
             sent_qop = None
     elif kind == 'dup_field':
-        name = rng.choice(['username', 'response', 'nonce', 'uri'])
+        name = rng.choice(['username', 'response', 'nonce', 'uri'] * 2 + [k for k, _ in items if k != 'opaque'])
         val = dict(items)[name]
         pos = rng.choice(['first', 'last'])
         if pos == 'first':
@@ -773,18 +914,77 @@ def gen_digest_case(rng, cfg, world):
         text, fields_known, conforming = None, False, False
     header = None
     cands = None
+    if rfc_how is not None:
+        kind += ':' + rfc_how
+        plain_text = text
+        fields0 = dict(items)
+        if rfc_how not in ('marker-only',):
+            conforming, wellformed = False, None
+        word_cs = rng.choice(['utf-8', 'UTF-8', 'iso-8859-1'])
+        try:
+            plain_text.encode(word_cs)
+        except UnicodeEncodeError:
+            word_cs = 'utf-8'
+        e = rng.choice('qQbB')
+        if rfc_how == 'whole':
+            text = enc_word(plain_text, word_cs, e)
+        elif rfc_how == 'lower-scheme-word':
+            text = enc_word('digest', word_cs, e) + ' ' + plain_text.split(' ', 1)[1]
+        elif rfc_how == 'params':
+            text = 'Digest ' + enc_word(plain_text.split(' ', 1)[1], word_cs, e)
+        elif rfc_how == 'two-words':
+            cut = rng.randrange(1, len(plain_text))
+            text = enc_word(plain_text[:cut], word_cs, e) + rng.choice([' ', '  ', '\t']) + \
+                enc_word(plain_text[cut:], word_cs, rng.choice('qb'))
+        elif rfc_how in ('field', 'field-literal'):
+            # only the user name is written as an encoded word (inside the quotes)
+            w = enc_word(user_used, 'utf-8', rng.choice('qb'))
+            if rfc_how == 'field-literal':
+                # ... and the client means it literally: its response is computed for the user called "=?utf-8?…?="
+                ha1_lit = ha1_of(w, realm_used, pw_used)
+                response = rfc2617_response(ha1_lit, nonce, method_used, uri, qop, nc if qop else None,
+                                            cnonce if (qop or alg == 'MD5-sess') else None, alg,
+                                            body_used.encode('latin-1'))
+            items2 = [(k, w if k == 'username' else response if k == 'response' else v) for k, v in items]
+            text = serialise(items2, style, rng)
+            alt_fields.append(dict(items2))
+            fields0 = dict(items2, username=user_used)
+        elif rfc_how == 'undecodable':
+            text = rng.choice([
+                enc_word(plain_text, 'utf-8', 'q').replace('=?utf-8?', '=?x-no-such-charset?', 1),
+                'Digest =?utf-8?b?A?=, ' + plain_text.split(' ', 1)[1],
+                '=?utf-8?q?=FF=FE?= ' + plain_text,
+                plain_text + ', x="=?ascii?q?=E9?="',
+                '=?utf-16?b?QQ?= ' + plain_text])
+            fields_known = False
+        elif rfc_how == 'nonlatin':
+            text = rng.choice([
+                enc_word(plain_text + ', x="\u4e2d\U0001F600"', 'utf-8', e),
+                enc_word('D\u0130GEST', 'utf-8', e) + ' ' + plain_text.split(' ', 1)[1],
+                plain_text.replace('username="', 'username="' + enc_word('\u0142', 'utf-8', 'q'), 1)])
+            fields_known = False
+        agree, decoded = rfc2047_agree(text.strip())
+        if not agree:
+            return None
+        enc = 'latin-1' if text_class(text) in ('ascii', 'latin1-range') else 'utf-8'
+        if fields_known:
+            items = list(fields0.items())
     if text is not None:
         header = wire(text, enc)
         if header is None:
             enc = 'utf-8'
             header = wire(text, enc)
-        if '=?' in header or any(c in header for c in '\r\n\x00'):
+        if any(c in header for c in '\r\n\x00'):
+            return None
+        if '=?' in header and not rfc2047_agree(header.strip())[0]:
             return None
         if fields_known:
             fields = {}
             for k_, v_ in items:
-                fields[k_] = v_
+                fields[k_] = v_[5:-1] if v_.startswith('\x00RAW"') else v_
             cands = candidates(fields, enc, server_codec)
+            for af in alt_fields:
+                cands += candidates(af, enc, server_codec)
             if dup_alt is not None:
                 cands += candidates(dict(fields, **{dup_alt[0]: dup_alt[1]}), enc, server_codec)
                 cands += candidates(dict(fields, **{dup_alt[0]: dup_alt[1][:-1]}), enc, server_codec)
@@ -797,10 +997,12 @@ def gen_digest_case(rng, cfg, world):
             conforming = False
     if sent_qop == 'auth-int' and wellformed is True:
         wellformed = None       # the tool never offers auth-int: answering 400 to it is as good as 401
+    mode = 'no5xx' if kind == 'int_nonce_ts' else 'full'
+    if awkward_realm(cfg['realm']) and mode == 'full':
+        mode, conforming, wellformed = 'sound', False, None
     return {'cfg': cfg, 'kind': kind, 'method': method, 'body': body, 'now': now, 'header': header,
             'cands': cands, 'genuine': genuine, 'conforming': conforming, 'wellformed': wellformed,
-            'sent_alg': sent_alg, 'sent_qop': sent_qop, 'age': age,
-            'oracle': 'no5xx' if kind == 'int_nonce_ts' else 'full'}
+            'sent_alg': sent_alg, 'sent_qop': sent_qop, 'age': age, 'oracle': mode}
 
 
 BASIC_KINDS = [
@@ -808,6 +1010,7 @@ BASIC_KINDS = [
     ('empty_password_sent', 2), ('nfd', 6), ('confusable_password', 10), ('confusable_user', 6), ('twin_mix', 5),
     ('fullwidth_colon', 4), ('colon_user', 2), ('no_colon', 3), ('wire_other_charset', 4),
     ('scheme', 8), ('no_header', 1), ('b64_break', 10), ('b64_junk', 5), ('spacing', 3), ('raw_bytes', 3),
+    ('empty_creds', 2), ('rfc2047', 6),
 ]
 
 
@@ -880,6 +1083,11 @@ def gen_basic_case(rng, cfg, world):
     elif kind == 'wire_other_charset':
         enc = 'latin-1' if enc == 'utf-8' else 'utf-8'
         conforming = False
+    elif kind == 'empty_creds':
+        user, pw = rng.choice([('', ''), ('', pw), (user, ''), ('', ':'), (' ', ' ')])
+        conforming = False
+    elif kind == 'rfc2047' and rng.random() < 0.3:
+        pw = other_password(rng, cfg, user, pw)
     cred = user + ':' + pw
     if kind == 'fullwidth_colon':
         cred = user + rng.choice(['\uff1a', '\ufe55', '\ua789', '\u02d0']) + pw      # no ASCII colon anywhere
@@ -980,12 +1188,52 @@ def gen_basic_case(rng, cfg, world):
                 raws.append(base64.b64decode(text.split(' ', 1)[1].encode('ascii')))
             except (binascii.Error, ValueError):
                 pass
+    if kind == 'rfc2047':
+        # Request.process_headers decodes RFC 2047 words before the tool sees the value
+        how = rng.choice(['whole', 'whole', 'params', 'scheme-word', 'two-words', 'undecodable', 'nonlatin',
+                          'marker-tail'])
+        kind += ':' + how
+        conforming, wellformed = False, None
+        plain_text = text
+        e = rng.choice('qQbB')
+        cs = rng.choice(['utf-8', 'us-ascii', 'iso-8859-1'])
+        if how == 'whole':
+            text = enc_word(plain_text, cs, e)
+        elif how == 'params':
+            text = 'Basic ' + enc_word(b64, cs, e)
+        elif how == 'scheme-word':
+            text = enc_word(rng.choice(['Basic', 'basic', 'BASIC']), cs, e) + ' ' + b64
+        elif how == 'two-words':
+            cut = rng.randrange(1, len(plain_text))
+            text = enc_word(plain_text[:cut], cs, e) + ' ' + enc_word(plain_text[cut:], cs, rng.choice('qb'))
+        elif how == 'undecodable':
+            text = rng.choice(['Basic =?x-no-such-charset?q?' + b64.replace('=', '=3D') + '?=',
+                               'Basic =?utf-8?b?A?=' + b64, '=?utf-8?q?=FF?= ' + plain_text,
+                               plain_text + ' =?ascii?q?=E9?='])
+            raws = []
+        elif how == 'nonlatin':
+            text = rng.choice(['Basic ' + enc_word('\u4e2d' + b64, 'utf-8', e),
+                               enc_word('BAS\u0130C', 'utf-8', e) + ' ' + b64,
+                               'Basic ' + b64[:4] + enc_word('\u0142', 'utf-8', 'q') + b64[4:]])
+            raws = []
+        elif how == 'marker-tail':
+            # "=?" without a complete encoded word: the decoder leaves the value alone; base64 skips "?"
+            text = plain_text + rng.choice(['=?', ' =?', '=?x', '=?=?'])
+        agree, decoded = rfc2047_agree(text.strip())
+        if not agree:
+            return None
+        for reading in (decoded, text.strip()):
+            if reading and ' ' in reading:
+                try:
+                    raws.append(base64.b64decode(reading.split(' ', 1)[1].encode('ascii')))
+                except (binascii.Error, ValueError):
+                    pass
     if kind == 'no_header':
         text, raws, conforming = None, [], False
     header = None
     if text is not None:
         header = wire(text, 'utf-8' if ord(max(text or ' ')) > 255 else 'latin-1')
-        if '=?' in header:
+        if '=?' in header and not rfc2047_agree(header.strip())[0]:
             return None
     # completeness is demanded for NFC-stable credentials sent in the announced charset
     expect = None
@@ -1003,9 +1251,12 @@ def gen_basic_case(rng, cfg, world):
                 u_, p_ = t.split(':', 1)
                 if p_ != '' and store.get(u_) == p_:
                     expect = u_
-    return {'cfg': cfg, 'kind': kind, 'method': rng.choice(METHODS), 'body': '', 'now': now, 'header': header,
+    case = {'cfg': cfg, 'kind': kind, 'method': rng.choice(METHODS), 'body': '', 'now': now, 'header': header,
             'raws': [r.decode('latin-1') for r in raws], 'conforming': conforming, 'wellformed': wellformed,
             'expect_login': expect, 'sent': cred if text is not None and kind.split(':')[0] not in ('scheme',) else None}
+    if awkward_realm(cfg['realm']):
+        case.update({'oracle': 'sound', 'conforming': False, 'wellformed': None, 'expect_login': None})
+    return case
 
 
 def gen_batch(rng, world):
